@@ -95,7 +95,7 @@ def run_calls(calls, cl=None, dp=5):
                                 f"applies (tool_on={model.tool} coolant_on={model.coolant}); "
                                 f"emitted {bytes(s.rec.data[b0:])!r}")
             if len(s.rec.data) == b0 and real["op"] not in (
-                    "set_time_units", "set_temperature_units", "other_builder"):
+                    "set_time_units", "set_temperature_units", "other_builder", "aborted_path"):
                 raise Violation(f"{where} succeeded but emitted nothing")
             if real["op"] in ("tool_off", "power_off") and model.tool:
                 cycles[model.start_api] = True
